@@ -438,7 +438,14 @@ impl BuiltInFunction {
                     format!("top vector index `{top}` could not be used to index (usize)")
                 })?;
 
-                Ok((Some(Primitive::Str(s[bottom..top].to_owned())), None))
+                let slice = s.get(bottom..top).with_context(|| {
+                    format!(
+                        "substring range {bottom}..{top} is out of bounds for a str of length {} (or splits a character)",
+                        s.len()
+                    )
+                })?;
+
+                Ok((Some(Primitive::Str(slice.to_owned())), None))
             }
             Self::StrContains => {
                 let Some(Primitive::Str(s)) = arguments.first() else {
@@ -510,14 +517,18 @@ impl BuiltInFunction {
 
                 let mut result = original.clone();
 
-                result.insert_str(
-                    (*bottom).try_into().with_context(|| {
-                        format!(
-                            "string insertion index `{bottom}` could not be used to index (usize)"
-                        )
-                    })?,
-                    new,
-                );
+                let index: usize = (*bottom).try_into().with_context(|| {
+                    format!("string insertion index `{bottom}` could not be used to index (usize)")
+                })?;
+
+                if !result.is_char_boundary(index) {
+                    bail!(
+                        "string insertion index {index} is out of bounds for a str of length {} (or splits a character)",
+                        result.len()
+                    )
+                }
+
+                result.insert_str(index, new);
                 Ok((Some(Primitive::Str(result)), None))
             }
             Self::StrReplace => {
@@ -558,12 +569,21 @@ impl BuiltInFunction {
                     format!("string bottom index `{top}` could not be used to index (usize)")
                 })?;
 
-                let start = top - bottom + 1;
+                let (Some(head), Some(tail)) = (s.get(..bottom), s.get(top..)) else {
+                    bail!(
+                        "deletion range {bottom}..{top} is out of bounds for a str of length {} (or splits a character)",
+                        s.len()
+                    )
+                };
 
-                let mut result = String::with_capacity(s.len() - start);
+                if top < bottom {
+                    bail!("deletion range {bottom}..{top} is reversed")
+                }
 
-                result.push_str(&s[..bottom]);
-                result.push_str(&s[top..]);
+                let mut result = String::with_capacity(head.len() + tail.len());
+
+                result.push_str(head);
+                result.push_str(tail);
 
                 Ok((Some(Primitive::Str(result)), None))
             }
@@ -746,11 +766,15 @@ impl BuiltInFunction {
                     ));
                 }
 
-                let (lhs, rhs) = s.split_at(
-                    (*mid)
-                        .try_into()
-                        .with_context(|| format!("`{mid}` is an invalid index (usize)"))?,
-                );
+                let mid: usize = (*mid)
+                    .try_into()
+                    .with_context(|| format!("`{mid}` is an invalid index (usize)"))?;
+
+                if !s.is_char_boundary(mid) {
+                    bail!("split index {mid} splits a character of the str")
+                }
+
+                let (lhs, rhs) = s.split_at(mid);
 
                 Ok((
                     Some(vector![
